@@ -14,7 +14,7 @@ def plan(tier):
                                       dict(model=model, degrees=degrees, as_string=as_string, a_fixed=af), weight=60, timeout_s=900))
                 else:
                     I.append(inst(f"geodesic-from-ideal[{model},degrees={degrees},string={as_string}]", 'harness.c14', 'geodesic_from_ideal',
-                                  dict(model=model, degrees=degrees, as_string=as_string), weight=300 if model == 'poincare' else 5, timeout_s=2400))
+                                  dict(model=model, degrees=degrees, as_string=as_string), weight=300 if model == 'poincare' else 5, timeout_s=1500))
                 if model == 'halfspace' or not q:
                     I.append(inst(f"segment-circle[{model},degrees={degrees},string={as_string}]", 'harness.c14', 'segment_circle',
                                   dict(model=model, degrees=degrees, as_string=as_string), weight=100 if model == 'halfspace' else 800, timeout_s=900 if q else 3000))
@@ -31,7 +31,7 @@ def plan(tier):
         I.append(inst(f"subspace-sphere[H3 plane,{model},2 fixed + 1 symbolic ideal point]", 'harness.c14', 'subspace_sphere', dict(n=3, k=3, model=model, nfixed=2), weight=5, timeout_s=900))
     I.append(inst("boundary-sphere[H3 plane,2 fixed + 1 symbolic ideal point]", 'harness.c14', 'subspace_sphere', dict(n=3, k=3, which='boundary', nfixed=2), weight=20, timeout_s=900))
     if not q:
-        I.append(inst("boundary-sphere[H3 plane]", 'harness.c14', 'subspace_sphere', dict(n=3, k=3, which='boundary'), weight=300, timeout_s=2400))
+        I.append(inst("boundary-sphere[H3 plane]", 'harness.c14', 'subspace_sphere', dict(n=3, k=3, which='boundary'), weight=300, timeout_s=1500))
     return dict(
         instances=I,
         explanation=("bounded symbolic verification: Segment / Geodesic circle_parameters in the Poincare and half-space models, Horosphere.sphere_parameters "
